@@ -38,6 +38,10 @@ fn expr_candidates(e: &Expr) -> Vec<Expr> {
     match e {
         Expr::Call(n, a) => {
             for i in 0..a.len() {
+                // (never shrink an aggregate to zero arguments: `min()` is C04's business)
+                if a.len() == 1 && ["min", "max", "sum", "mul"].contains(&n.as_str()) {
+                    continue;
+                }
                 let mut b = a.clone();
                 b.remove(i);
                 out.push(Expr::Call(n.clone(), b));
